@@ -9,6 +9,9 @@ From SU Require Import F32 F32Lemmas.
 From SU.Model Require Import Utils Glide.
 From SU.Spec Require Import GlideSpec.
 From SU.Proofs Require Import GlideCoeffProofs GlideFilterProofs GlideTimeProofs.
+From SU.Spec Require Import RunSpec.
+From SU.Proofs Require Import GlideExtraProofs.
+From SU.Proofs Require Import SharedProofs.
 Open Scope R_scope.
 
 (** the pole installed for a time t with N = t * fs >= 100 samples (t <= 10 s) is the pole of
@@ -80,6 +83,113 @@ Theorem C14_dead_band_test : forall t c, fin t -> fin c ->
   R32 GL_EPS = 13421773 / 268435456.
 Proof. exact dead_band_test. Qed.
 
+(** the dead-band helper is |rnd(v1 - v2)| <= eps *)
+Theorem C14_is_almost_spec : forall v1 v2 eps : f32, fin v1 -> fin v2 -> fin eps ->
+  Rabs (R32 v1 - R32 v2) < MAXF ->
+  (is_almost v1 v2 eps = true <-> Rabs (rnd (R32 v1 - R32 v2)) <= R32 eps).
+Proof. exact is_almost_spec. Qed.
+
+(** and symmetric *)
+Theorem C14_is_almost_sym : forall v1 v2 eps : f32, fin v1 -> fin v2 -> fin eps ->
+  Rabs (R32 v1 - R32 v2) < MAXF ->
+  is_almost v1 v2 eps = is_almost v2 v1 eps.
+Proof. exact is_almost_sym. Qed.
+
+(** for every reachable processor the cached time is the time in effect: either no set_time call was honoured yet (marker -1.0, initial fastest coefficients) or the installed coefficients are exactly those of the cached time *)
+Theorem C14_cached_t_in_effect : forall fs ops g, glide_run (glide_new fs) ops = Some g ->
+  (g_cached_t g = GL_T0 /\
+   exists g0, glide_new fs = Some g0 /\ d_c (g_lpf g) = d_c (g_lpf g0)) \/
+  Some (d_c (g_lpf g)) = coeffs_for g (g_cached_t g).
+Proof. exact cached_t_in_effect. Qed.
+
+(** no documented time falls in the dead band of the marker: the first call is always honoured *)
+Theorem C14_first_set_time_honoured : forall t, fin t -> 0 <= R32 t <= 1000000 - 1 ->
+  is_almost t GL_T0 GL_EPS = false.
+Proof. exact first_set_time_honoured. Qed.
+
+(** a reachable processor keeps the sample rate and the cutoff clamps of the fresh one, so the time -> coefficient map is the same *)
+Theorem C14_reachable_params : forall fs ops g, glide_run (glide_new fs) ops = Some g ->
+  exists g0, glide_new fs = Some g0 /\ glide_after g0 ops = Some g /\
+    g_fs g = fs /\ g_fs g0 = fs /\
+    g_min_fc g = g_min_fc g0 /\ g_max_fc g = g_max_fc g0 /\
+    g_min_fc g = GL_MIN_FC /\ g_max_fc g = fdiv fs GL_DIV /\
+    (forall t, glide_f0 g t = glide_f0 g0 t) /\
+    (forall t, coeffs_for g t = coeffs_for g0 t).
+Proof. exact reachable_params. Qed.
+
+(** hence pole accuracy for every reachable processor *)
+Theorem C14_pole_accuracy_reachable : forall fs ops g t c,
+  glide_fs_ok fs -> glide_run (glide_new fs) ops = Some g ->
+  glide_time_ok t -> 100 <= R32 t * R32 fs ->
+  coeffs_for g t = Some c ->
+  let p0 := ideal_pole (R32 t * R32 fs) in
+  good c /\ Rabs (pole c - p0) <= / 65536 * (1 - p0) + 4 * / 16777216.
+Proof. exact C14_pole_accuracy_reachable. Qed.
+
+(** and for the coefficients actually installed *)
+Theorem C14_pole_in_effect : forall fs ops g,
+  glide_fs_ok fs -> glide_run (glide_new fs) ops = Some g ->
+  g_cached_t g <> GL_T0 ->
+  glide_time_ok (g_cached_t g) -> 100 <= R32 (g_cached_t g) * R32 fs ->
+  let p0 := ideal_pole (R32 (g_cached_t g) * R32 fs) in
+  good (d_c (g_lpf g)) /\
+  Rabs (pole (d_c (g_lpf g)) - p0) <= / 65536 * (1 - p0) + 4 * / 16777216.
+Proof. exact C14_pole_in_effect. Qed.
+
+(** "settled within 8 samples": with a time below two samples in effect, from the second sample of a held input on the output is within 24*2^-24*B of it, from the third on within 8*2^-24*B (the first sample still averages in the previous input) *)
+Theorem C14_fastest_settles : forall fs ops g t x B n,
+  glide_fs_ok fs -> glide_run (glide_new fs) ops = Some g ->
+  fin t -> 0 <= R32 t < 2 / R32 fs ->
+  Some (d_c (g_lpf g)) = coeffs_for g t ->
+  df1_bounded (g_lpf g) B -> fin x -> Rabs (R32 x) <= B ->
+  bpow radix2 (-100) <= B -> B <= bpow radix2 64 -> (2 <= n)%nat ->
+  exists ys, glide_outputs g (repeat (GProcess x) n) = Some ys /\ length ys = n /\
+    Rabs (R32 (last ys f_0) - R32 x) <= 24 * / 16777216 * B /\
+    ((3 <= n)%nat -> Rabs (R32 (last ys f_0) - R32 x) <= 8 * / 16777216 * B).
+Proof. exact C14_fastest_settles. Qed.
+
+(** the same starting from the honoured set_time call, at the eighth sample *)
+Theorem C14_fastest_settles_set_time : forall fs ops g g' t x B,
+  glide_fs_ok fs -> glide_run (glide_new fs) ops = Some g ->
+  fin t -> 0 <= R32 t < 2 / R32 fs ->
+  is_almost t (g_cached_t g) GL_EPS = false -> glide_set_time g t = Some g' ->
+  df1_bounded (g_lpf g) B -> fin x -> Rabs (R32 x) <= B ->
+  bpow radix2 (-100) <= B -> B <= bpow radix2 64 ->
+  exists ys, glide_outputs g' (repeat (GProcess x) 8) = Some ys /\ length ys = 8%nat /\
+    Rabs (R32 (last ys f_0) - R32 x) <= 8 * / 16777216 * B.
+Proof. exact C14_fastest_settles_set_time. Qed.
+
+(** times beyond 10 s (and +inf) select exactly the coefficients of 10 s, in every reachable state *)
+Theorem C14_coeffs_beyond_10 : forall fs ops g t,
+  glide_fs_ok fs -> glide_run (glide_new fs) ops = Some g -> beyond_10 t ->
+  glide_f0 g t = g_min_fc g /\ glide_f0 g t = glide_f0 g f_10 /\
+  coeffs_for g t = coeffs_for g f_10.
+Proof. exact coeffs_beyond_10. Qed.
+
+(** replacing every time beyond 10 s by 10.0 in a history changes no output and no coefficient set, provided no requested time lies in (9.949, 10) where the dead band could tell the two apart *)
+Theorem C14_run_beyond_10 : forall fs g0 ops,
+  glide_fs_ok fs -> glide_new fs = Some g0 -> Forall op_time_clear ops ->
+  glide_outputs g0 (map clamp_op ops) = glide_outputs g0 ops /\
+  coeffs_used g0 (map clamp_op ops) = coeffs_used g0 ops /\
+  match glide_after g0 ops, glide_after g0 (map clamp_op ops) with
+  | Some g, Some h => eq_but_cached g h
+  | None, None => True
+  | _, _ => False
+  end.
+Proof. exact run_beyond_10. Qed.
+
+(** witness that the proviso is needed: [10.04; 9.96] honours the second call, [10.0; 9.96] ignores it (0.04 s from the cached 10.0) *)
+Theorem C14_run_beyond_10_false :
+  map clamp_op h_orig = [GSetTime f_10; GSetTime t_9_96; GProcess w_1; GProcess w_1] /\
+  run_bits w_fs h_orig = Some [Some 967135677; Some 980938051]%Z /\
+  run_bits w_fs (map clamp_op h_orig) = Some [Some 967092352; Some 980873091]%Z /\
+  final_bits w_fs [GSetTime t_10_04; GSetTime t_9_96]
+  = Some ([Some 3212826283; Some 0; Some 967135677; Some 967135677; Some 0], Some 1092574249)%Z /\
+  final_bits w_fs [GSetTime f_10; GSetTime t_9_96]
+  = Some ([Some 3212826326; Some 0; Some 967092352; Some 967092352; Some 0], Some 1092616192)%Z /\
+  beyond_10 t_10_04 /\ glide_time_ok t_9_96.
+Proof. exact run_beyond_10_false. Qed.
+
 Print Assumptions C14_pole_accuracy.
 Print Assumptions C14_time_constant_real.
 Print Assumptions C14_step_tracks.
@@ -87,3 +197,15 @@ Print Assumptions C14_fastest.
 Print Assumptions C14_slowest.
 Print Assumptions C14_dead_band.
 Print Assumptions C14_dead_band_test.
+Print Assumptions C14_is_almost_spec.
+Print Assumptions C14_is_almost_sym.
+Print Assumptions C14_cached_t_in_effect.
+Print Assumptions C14_first_set_time_honoured.
+Print Assumptions C14_reachable_params.
+Print Assumptions C14_pole_accuracy_reachable.
+Print Assumptions C14_pole_in_effect.
+Print Assumptions C14_fastest_settles.
+Print Assumptions C14_fastest_settles_set_time.
+Print Assumptions C14_coeffs_beyond_10.
+Print Assumptions C14_run_beyond_10.
+Print Assumptions C14_run_beyond_10_false.
